@@ -20,9 +20,9 @@ import (
 	cfg "github.com/tendermint/tendermint/config"
 	cstypes "github.com/tendermint/tendermint/consensus/types"
 	vg "github.com/tendermint/tendermint/internal/verifgen"
-	sm "github.com/tendermint/tendermint/state"
 	"github.com/tendermint/tendermint/p2p"
 	tmproto "github.com/tendermint/tendermint/proto/tendermint/types"
+	sm "github.com/tendermint/tendermint/state"
 	"github.com/tendermint/tendermint/types"
 )
 
@@ -958,7 +958,7 @@ func c03F83Prefix(r *vg.Rand, state sm.State, pvs []types.MockPV, net *c01Net) b
 func c03Run(r *vg.Rand, k int) (term, descr string, allDecided bool, kind string) {
 	nv := 4 + r.Intn(3)
 	scripted := k%4 == 3
-	directed := k%20 == 9 // the directed scenario of finding F70 (a lock carried past the polka that releases it)
+	directed := k%20 == 9    // the directed scenario of finding F70 (a lock carried past the polka that releases it)
 	directed83 := k%20 == 19 // the directed scenario of finding F83 (a re-lock that leaves a stale valid block)
 	if directed83 {
 		scripted = false
